@@ -171,7 +171,7 @@ func newOperator(expr parser.Expr, storage *engstore.SelectorPool, opts *query.O
 					operators = append(operators, operator)
 				}
 
-				return exchange.NewCoalesce(model.NewVectorPool(stepsBatch), operators...), nil
+				return exchange.NewShardCoalesce(model.NewVectorPool(stepsBatch), operators...), nil
 			}
 		}
 
